@@ -15,11 +15,27 @@ points.  The yield policy reproduces the model's granularity:
     end           release the consolidated lock, `process_results()` returns
     cancel        HpcSubmitter._cancel_job(job, aggregator): whole call
 
+    fault         {"t": "fault", "p": p, "what": "read"|"open"|"write"|"remove"}: arms ONE injected
+                  `OSError(EDQUOT)` for collector p's next matching file operation inside a collection
+                  (read = open of the node file in `_get_results`; open = the append-open of
+                  processed_results.csv; write = the write/flush/close after that open succeeded: NOTHING
+                  reaches the file, the error surfaces at close, as for a small buffered write whose one
+                  write(2) fails; remove = `os.remove` of the node file).  The REAL exception propagation
+                  follows (context managers, both `finally: lock.release()`, `process_results` raises).
+    kill          {"t": "kill", "p": p}: collector p dies at its current yield point (thread parked for
+                  good: no `finally` runs, its lock markers stay on disk).  With "at": "opened"|"removed"
+                  the death is armed for a point INSIDE its next matching step: right after the append-
+                  open succeeded (nothing flushed) / right after `os.remove` (node lock still held).
+    breakLocks    the markers of dead processes are removed (a lock library breaking stale markers / an
+                  operator); later collectors can proceed.
+
 After every op the files on disk, the lock markers and the finished calls' return values are dumped
 and compared with the Lean driver.  The direct oracle (`oracle`) states C08 on those observations
 without the model.
 """
+import builtins
 import csv
+import errno
 import io
 import itertools
 import os
@@ -69,6 +85,82 @@ def fnum(s):
     return float(s)
 
 
+class _DoomedFile:
+    """what `open(path, "a")` returns when a write fault is armed: the open has succeeded (the file
+    exists now), every write stays in the buffer, the flush at close fails with EDQUOT and nothing
+    has reached the file (one failed write(2) of a small buffer)."""
+
+    def __init__(self, real, path):
+        self._real, self._path, self._closed = real, path, False
+
+    def tell(self):
+        return self._real.tell()
+
+    def write(self, text):
+        return len(text)
+
+    def writelines(self, lines):
+        pass
+
+    def flush(self):
+        raise OSError(errno.EDQUOT, "Disk quota exceeded", self._path)
+
+    def close(self):
+        if not self._closed:
+            self._closed = True
+            self._real.close()
+            raise OSError(errno.EDQUOT, "Disk quota exceeded", self._path)
+
+    def __enter__(self):
+        return self
+
+    def __exit__(self, *exc):
+        self.close()
+
+    def __getattr__(self, name):
+        return getattr(self._real, name)
+
+
+class _FaultyOs(coop.OsProxy):
+    """coop.OsProxy (same yield points) + the armed remove fault / death after the removal"""
+
+    def __init__(self, suite, get_sched, root):
+        super().__init__(get_sched, root)
+        self._suite = suite
+
+    def remove(self, path, *a, **k):
+        self._yield("remove", path)
+        self._suite._fault_point("remove", path)
+        r = os.remove(path, *a, **k)
+        self._suite._fault_point("removed", path)
+        return r
+
+    def unlink(self, path, *a, **k):
+        self._yield("remove", path)
+        self._suite._fault_point("remove", path)
+        r = os.unlink(path, *a, **k)
+        self._suite._fault_point("removed", path)
+        return r
+
+
+def _faulty_open(suite, get_sched, root):
+    """coop.yielding_open (same yield points) + the armed open / write / read faults"""
+    def _open(file, mode="r", *a, **k):
+        if any(c in mode for c in "wax+"):
+            sched = get_sched()
+            if sched is not None and coop._under(file, root):
+                sched.yield_point("open:" + "".join(c for c in mode if c in "wax+"), os.fspath(file))
+            suite._fault_point("open", file)
+            f = builtins.open(file, mode, *a, **k)
+            suite._fault_point("opened", file)
+            if suite._fault_point("write", file) == "doomed":
+                return _DoomedFile(f, os.fspath(file))
+            return f
+        suite._fault_point("read", file)
+        return builtins.open(file, mode, *a, **k)
+    return _open
+
+
 class ResultsSuite(Suite):
     name = "results"
 
@@ -84,6 +176,7 @@ class ResultsSuite(Suite):
         self._case_no = 0
         self._parse_cache = {}
         self.extra = getattr(self, "extra", {})
+        self._armed, self._fired = {}, []
         get = lambda: self.sched  # noqa: E731
         suite = self
         orig_glob = ra.ResultsAggregator._get_node_results_files
@@ -97,7 +190,7 @@ class ResultsSuite(Suite):
 
         self._patches = [
             coop.patched(ra, "SoftFileLock", coop.lock_class(get, on_contended="timeout")),
-            coop.instrument_io(ra, get, self.root),
+            coop.patched(ra, open=_faulty_open(self, get, self.root), os=_FaultyOs(self, get, self.root)),
             coop.patched(ra.ResultsAggregator, "_get_node_results_files", recording_glob),
             coop.patched(jres, "time", _Clock.time),
             coop.patched(acc, "time", _Clock),
@@ -118,6 +211,27 @@ class ResultsSuite(Suite):
     def _batch_of(path):
         m = re.search(r"(\d+)", Path(path).name)
         return int(m.group(1)) if m else -1
+
+    # ------------------------------------------------------------------ fault points
+    def _fault_point(self, what, path):
+        """called by the io layer inside a worker: fire the fault / death armed for this worker if it is
+        of this kind (only file operations of a collection on files of the case directory)"""
+        sched = self.sched
+        w = sched.current() if sched is not None else None
+        if w is None or w.ctx.get("call") != "collect" or not coop._under(path, self.root):
+            return None
+        a = self._armed.get(w.name)
+        if not a or a["what"] != what:
+            return None
+        del self._armed[w.name]
+        self._fired.append({"p": int(w.name[1:]), "what": what, "kind": a["kind"]})
+        if a["kind"] == "die":
+            # parked for good: the harness abandons the worker (`Scheduler.kill`); teardown unwinds it
+            sched.yield_point("killed", os.fspath(path), force=True)
+            raise coop.Killed()
+        if what == "write":
+            return "doomed"
+        raise OSError(errno.EDQUOT, "Disk quota exceeded", os.fspath(path))
 
     # ------------------------------------------------------------------ yield policy
     def _policy(self, w, kind, detail):
@@ -143,6 +257,10 @@ class ResultsSuite(Suite):
         if tier == "thorough":
             out += self._exhaustive()
         out += self._byte_cases(rng, 150 if tier == "quick" else 1200)
+        # histories with injected I/O errors and kills (generated last: the cases above are unchanged)
+        for i in range({"quick": 110, "thorough": 700}[tier]):
+            out.append(self._gen_fault_run(rng, small=(i % 3 == 0)))
+        out += self._exhaustive_faults(full=(tier == "thorough"))
         return out
 
     def _mkrow(self, rng, name, kind):
@@ -154,13 +272,37 @@ class ResultsSuite(Suite):
         et = str(float(rng.choice([0, 1, 3, 12, 100, 3600]) + rng.choice([0, 0.5, 0.25, 0.0625])))
         return [name, rc, "finished", et, ct, hpc]
 
-    def _gen_run(self, rng, small=False):
+    def _gen_fault_run(self, rng, small=False):
+        """an op sequence with at least one injected failure / kill"""
+        for _ in range(20):
+            case = self._gen_run(rng, small=small, faults=True)
+            if any(o["t"] in ("fault", "kill") for o in case["ops"]):
+                break
+        return case
+
+    # what can be armed, by the phase the collection is in (weights favour what fires next)
+    _ARM = {
+        "lock": [("fail", "read", 3), ("fail", "open", 2), ("fail", "write", 2), ("fail", "remove", 1),
+                 ("die", "opened", 1), ("die", "removed", 1)],
+        "copy": [("fail", "open", 3), ("fail", "write", 3), ("die", "opened", 2), ("fail", "remove", 1),
+                 ("die", "removed", 1), ("fail", "read", .3)],
+        "remove": [("fail", "remove", 3), ("die", "removed", 2), ("fail", "read", 1), ("fail", "open", .5)],
+        "end": [("fail", "read", 1), ("fail", "open", 1)],
+    }
+    # the step at which an armed failure / death fires, and whether the process survives it
+    _FIRES = {("fail", "read"): "lock", ("fail", "open"): "copy", ("fail", "write"): "copy",
+              ("die", "opened"): "copy", ("fail", "remove"): "remove", ("die", "removed"): "remove"}
+
+    def _gen_run(self, rng, small=False, faults=False):
         """weighted random op sequence; a Python mini-simulation keeps most ops enabled and steers
         towards: appends racing the collection of the same batch, re-creation after deletion,
-        a second collector / a cancellation knocking on the held consolidated lock."""
+        a second collector / a cancellation knocking on the held consolidated lock.
+        `faults`: additionally arm I/O errors / deaths for the collector in progress (mostly the one that
+        fires at its next step), kill it at its yield point, break the stale markers (or not), probe a
+        collector whose call was aborted, and let other collectors pick up afterwards."""
         nb = rng.randint(1, 2 if small else 4)
         batches = rng.sample(range(1, 9), nb) if rng.random() < .5 else list(range(1, nb + 1))
-        ncoll = rng.randint(1, 2 if small else 3)
+        ncoll = rng.randint(2, 3 if small else 4) if faults else rng.randint(1, 2 if small else 3)
         nwriters = rng.randint(1, 3)
         budget = {b: rng.randint(1, 3 if small else 5) for b in batches}
         max_ops = rng.randint(6, 18) if small else rng.randint(15, 40)
@@ -171,6 +313,12 @@ class ResultsSuite(Suite):
         names = itertools.count(1)
         used_names = []
         kinds = ["direct", "complete", "cancel"]
+        dead = set()            # killed collectors
+        stale = False           # a dead collector's markers are on disk
+        armed = {}              # p -> (kind, what)
+        probe = None            # collector whose call was just aborted by an injected failure
+        if faults:
+            max_ops += rng.randint(4, 12)
         while len(ops) < max_ops:
             choices = []
             can_append = [b for b in batches if budget[b] > 0]
@@ -184,7 +332,70 @@ class ResultsSuite(Suite):
                 choices.append(("begin_blocked", .5))
                 choices.append(("cancel", .4))
             choices.append(("junk", .25))
+            if faults:
+                live = [q for q in range(ncoll) if q not in dead]
+                if not live:
+                    break
+                if stale:
+                    choices = [c for c in choices if c[0] not in ("step",)]
+                    choices.append(("breakLocks", 5))
+                    choices.append(("step", .5))     # steps of the dead process: stutters
+                elif holder is not None:
+                    choices.append(("arm", 3.5 if holder[0] not in armed else .3))
+                    choices.append(("kill", 1.3))
+                else:
+                    choices.append(("arm_idle", .3))
+                if probe is not None:
+                    choices.append(("probe", 6))
             kind = rng.choices([c for c, _ in choices], [w for _, w in choices])[0]
+            if faults and kind in ("arm", "arm_idle", "kill", "breakLocks", "probe"):
+                if kind == "arm":
+                    table = self._ARM[holder[2]]
+                    k, what, _ = rng.choices(table, [x[2] for x in table])[0]
+                    armed[holder[0]] = (k, what)
+                    ops.append({"t": "fault", "p": holder[0], "what": what} if k == "fail"
+                               else {"t": "kill", "p": holder[0], "at": what})
+                elif kind == "arm_idle":
+                    q = rng.choice(live)
+                    what = rng.choice(["read", "open", "write", "remove"])
+                    armed[q] = ("fail", what)
+                    ops.append({"t": "fault", "p": q, "what": what})
+                elif kind == "kill":
+                    ops.append({"t": "kill", "p": holder[0]})
+                    dead.add(holder[0])
+                    armed.pop(holder[0], None)
+                    stale = True
+                elif kind == "breakLocks":
+                    ops.append({"t": "breakLocks"})
+                    stale, holder = False, None
+                else:
+                    # in the unchanged code the aborted call is over: these are stutters
+                    for t in rng.choice([["move"], ["move", "move"], ["end"], ["lock", "move"], ["move", "end"]]):
+                        ops.append({"t": t, "p": probe})
+                    probe = None
+                continue
+            if faults and kind == "step" and not stale and armed.get(holder[0]) and \
+                    self._FIRES[armed[holder[0]]] == holder[2]:
+                # the armed failure / death fires in this step
+                q = holder[0]
+                k, _ = armed.pop(q)
+                ops.append({"t": "lock" if holder[2] == "lock" else "move", "p": q})
+                if holder[2] == "remove":
+                    deleted |= set(files)
+                if k == "fail":
+                    holder, probe = None, q
+                else:
+                    dead.add(q)
+                    stale = True
+                continue
+            if faults and kind == "step" and stale:
+                ops.append({"t": rng.choice(["lock", "move", "end"]), "p": holder[0]})   # the dead process: stutter
+                continue
+            if faults and kind == "begin":
+                q = rng.choice(live)        # (a dead process does nothing: let a live one start)
+                ops.append({"t": "begin", "p": q})
+                holder = [q, len(files), "lock" if files else "end"]
+                continue
             if kind == "append":
                 # favour batches that exist (racing a collection) or were just deleted (re-creation)
                 wts = [(3 if b in files else 1) + (4 if b in deleted else 0) for b in can_append]
@@ -270,6 +481,40 @@ class ResultsSuite(Suite):
                 if not created:
                     case["created"] = False
                 out.append(case)
+        return out
+
+    def _exhaustive_faults(self, full):
+        """ONE failure / kill at every position of a small collection (every kind), the rest of the
+        aborted collection's ops (stutters in the unchanged code), stale markers broken or not, then
+        another collector picks everything up.  `full` (thorough): also two files in one round (rows
+        moved before the abort), the consolidated file absent at the start, kills without breaking."""
+        def row(n):
+            return [f"j{n}", "0", "finished", "1.5", "1700000000.5", "None"]
+        A = lambda w, b, n: {"t": "append", "w": w, "b": b, "kind": "direct", "row": row(n)}  # noqa: E731
+        cancel = {"t": "cancel", "p": 2, "row": ["c1", "1", "canceled", "0", "1700000000.5", "None"]}
+
+        def col(p, nfiles):
+            one = [{"t": "lock", "p": p}, {"t": "move", "p": p}, {"t": "move", "p": p}]
+            return [{"t": "begin", "p": p}] + one * nfiles + [{"t": "end", "p": p}]
+        X = [{"t": "fault", "p": 0, "what": w} for w in ("read", "open", "write", "remove")] + \
+            [{"t": "kill", "p": 0}, {"t": "kill", "p": 0, "at": "opened"}, {"t": "kill", "p": 0, "at": "removed"}]
+        programs = [([cancel, A(0, 1, 1)], col(0, 1), [A(1, 1, 2)] + col(1, 1), True)]
+        if full:
+            programs += [([A(0, 1, 1), A(1, 2, 2)], col(0, 2), [A(0, 2, 3)] + col(1, 2), True),
+                         ([A(0, 1, 1)], col(0, 1), [cancel] + col(1, 1), False)]
+        out = []
+        for pre, first, cont, created in programs:
+            for x in X:
+                for i in range(len(first) + 1):
+                    tails = [[{"t": "breakLocks"}]]
+                    if full and x["t"] == "kill":
+                        tails.append([])
+                    for tail in tails:
+                        ops = pre + first[:i] + [dict(x)] + first[i:] + tail + cont
+                        case = {"op": "results.run", "ops": [dict(o) for o in ops], "exhaustive": True}
+                        if not created:
+                            case["created"] = False
+                        out.append(case)
         return out
 
     @staticmethod
@@ -437,13 +682,16 @@ class ResultsSuite(Suite):
         cons_lock = str(cons) + ".lock"
         sched = coop.Scheduler(self._policy, step_timeout=20.0)
         self.sched = sched
+        self._armed, self._fired = {}, []
         ops = case["ops"]
         batches = sorted({o["b"] for o in ops if o["t"] == "append"})
         returned = []       # [p, rows] | [p, "raised"]
         snaps = []          # per op: observed glob order (begin ops that got the lock) or None
         oks = []
         steps = []
-        info = {"appended": [], "canceled": [], "cancel_returns": [], "exceptions": []}
+        info = {"appended": [], "canceled": [], "cancel_returns": [], "exceptions": [],
+                "fired": [], "killed": [], "broken": []}
+        dead = []           # collectors that were killed (ints)
 
         def worker(name):
             if name not in sched.workers:
@@ -462,11 +710,21 @@ class ResultsSuite(Suite):
                 info["exceptions"].append(f"process_results raised {type(stop.exc).__name__}: {stop.exc}")
             w.ctx.clear()
 
+        def after_collect_step(i, p, w, stop):
+            """the collector stopped: parked at the next yield point, died inside the step, or its call ended"""
+            if stop.what == "yield" and stop.kind == "killed":
+                sched.kill(w.name)
+                dead.append(p)
+                info["killed"].append([i, p, "in-step"])
+            elif stop.what != "yield":
+                finish_collect(p, w, stop)
+
         try:
-            for o in ops:
+            for i, o in enumerate(ops):
                 t = o["t"]
                 ok = False
                 snap = None
+                self._fired = []
                 if t == "append":
                     w = worker(f"w{o['w']}")
                     row = o["row"]
@@ -502,8 +760,7 @@ class ResultsSuite(Suite):
                         else:
                             ok = True
                             snap = list(w.ctx.get("snap", []))
-                            if stop.what != "yield":
-                                finish_collect(o["p"], w, stop)
+                            after_collect_step(i, o["p"], w, stop)
                 elif t in ("lock", "move", "end"):
                     w = worker(f"p{o['p']}")
                     at = w.parked_at
@@ -511,22 +768,65 @@ class ResultsSuite(Suite):
                     if w.state == "parked" and at in want:
                         ok = True
                         stop = sched.advance(w.name)
-                        if stop.what != "yield":
-                            finish_collect(o["p"], w, stop)
+                        after_collect_step(i, o["p"], w, stop)
+                elif t == "fault" or (t == "kill" and o.get("at")):
+                    # arm ONE failure / death for the collector's next matching file operation
+                    w = worker(f"p{o['p']}")
+                    if w.state != "dead":
+                        ok = True
+                        self._armed[w.name] = ({"kind": "fail", "what": o["what"]} if t == "fault"
+                                               else {"kind": "die", "what": o["at"]})
+                elif t == "kill":
+                    w = worker(f"p{o['p']}")
+                    if w.state != "dead":
+                        ok = True
+                        info["killed"].append([i, o["p"], w.parked_at or "idle"])
+                        sched.kill(w.name)
+                        dead.append(o["p"])
+                        self._armed.pop(w.name, None)
+                elif t == "breakLocks":
+                    gone = self._break_stale(sched)
+                    ok = bool(gone)
+                    info["broken"].append([i, gone])
                 else:
                     raise ValueError(t)
+                for f in self._fired:
+                    info["fired"].append([i, f["p"], f["what"], f["kind"]])
                 oks.append(ok)
                 snaps.append(snap)
-                steps.append(self._observe(out, cons, cons_lock, batches, node_path, returned, ok))
+                steps.append(self._observe(out, cons, cons_lock, batches, node_path, returned, ok, dead))
             # ---- drain (not compared with the model; input of the end-state oracle)
             final = self._drain(sched, out, returned, finish_collect)
         finally:
+            # dead workers are unwound now (after the last observation).  If the unwinding itself raises
+            # something else than `Killed` (a `finally` of the code under test failing), the worker loop
+            # waits for another job: give it a second wake-up so that `close()` does not wait for it.
+            for w in sched.workers.values():
+                if w.state == "dead":
+                    w._closing = True
+                    w._go.release()
+                    w._go.release()
             sched.close()
             self.sched = None
         info["final"] = final
         info["oks"] = oks
         self.extra[self._key(case)] = {"snaps": snaps, "info": info}
         return steps
+
+    @staticmethod
+    def _break_stale(sched):
+        """remove the lock markers held by dead workers; returns their file names"""
+        gone = []
+        for w in sched.workers.values():
+            if w.state == "dead":
+                for path in list(w.locks):
+                    try:
+                        os.unlink(path)
+                        gone.append(Path(path).name)
+                    except FileNotFoundError:
+                        pass
+                w.locks.clear()
+        return sorted(gone)
 
     def _append_job(self, out, o):
         row, b, kind = o["row"], o["b"], o.get("kind", "direct")
@@ -571,7 +871,7 @@ class ResultsSuite(Suite):
             return HpcSubmitter._cancel_job(_SubmitterStub(out), _JobStub(row[0]), agg)
         return job
 
-    def _observe(self, out, cons, cons_lock, batches, node_path, returned, ok):
+    def _observe(self, out, cons, cons_lock, batches, node_path, returned, ok, dead=()):
         try:
             text = cons.read_text()
         except FileNotFoundError:
@@ -586,6 +886,7 @@ class ResultsSuite(Suite):
             "consLocked": os.path.exists(cons_lock),
             "nodeLocked": [b for b in batches if os.path.exists(str(node_path(b)) + ".lock")],
             "returned": [list(x) for x in returned],
+            "dead": sorted(set(dead)),
             "ok": ok,
         }
 
@@ -593,6 +894,10 @@ class ResultsSuite(Suite):
         """finish what is in progress, run one more complete collection, list the results"""
         RA = self.ra.ResultsAggregator
         final = {"errors": []}
+        # no further injected failure; the stale markers of dead processes are removed first (the end
+        # state is judged after an operator / the lock library cleaned up), dead processes stay dead
+        self._armed = {}
+        final["stale_broken"] = self._break_stale(sched)
         for name, w in list(sched.workers.items()):
             if w.state == "parked":
                 stop = sched.run_to_completion(name)
@@ -669,6 +974,30 @@ class ResultsSuite(Suite):
                 return tuple(row)
         appended, canceled = Counter(), Counter()
         by_batch = {}
+        # ---- what injected failures and kills change (read off the unchanged code, see
+        # ResultsAggregator._move_results / _append_processed_results / _do_action_under_lock):
+        #  * never lost, never garbled: holds at every instant, whatever failed or died (`row.lost`,
+        #    `file.unparsable`, `row.truncated`, `row.altered`, `row.misattributed` are asserted always);
+        #  * a failed read / append-open changes nothing on disk; a failed write leaves the consolidated
+        #    file as the open left it (created empty if it did not exist; nothing of a small buffered write
+        #    reaches the file), the node file is still there: each row is still in exactly one file;
+        #  * a failed `os.remove`, or a death after the copy and before the removal, leaves the rows of that
+        #    ONE node file in both files for good (at-least-once): exactly those rows may be present once
+        #    more per such event (`dup_allowed`), anything else is still `row.duplicated`;
+        #  * an aborted / killed round returns nothing: the rows it had already moved are in the consolidated
+        #    file and are reported to no round (`unreported_ok`: exactly the rows that were in the consolidated
+        #    file and unreported at the instant of the abort / death); no row is ever reported twice, under
+        #    any failure (`returned.twice` is asserted always: a round returns a row only after it removed
+        #    the file the row was in);
+        #  * `process_results()` raises only in the step in which an injected failure fired.
+        fired_at = {}
+        for i, p_, what, kind in info.get("fired", []):
+            fired_at.setdefault(i, []).append((p_, what, kind))
+        killed_at = {i: (p_, phase) for i, p_, phase in info.get("killed", [])}
+        dup_allowed = Counter()
+        unreported_ok = Counter()
+        excused_raises = 0
+        prev = None             # (locked node files' rows, extra rows) of the previous observation
         for i, (o, st) in enumerate(zip(ops, result)):
             if st["ok"] and o["t"] == "append":
                 appended[norm(o["row"])] += 1
@@ -686,10 +1015,11 @@ class ResultsSuite(Suite):
             if bad:
                 out.append(V("file.unparsable", f"{where}: node file of batch {bad[0][0]} does not parse ({bad[0][2]}): {bad[0][1]!r}"))
                 continue
-            # independent parse with csv.DictReader: same rows, complete rows
+            # independent parse with csv.DictReader: same rows, complete rows (an empty file — the append-open
+            # succeeded and nothing was written — holds no row)
             for label, text, rows in [("consolidated", st["cons"], st["consRows"])] + [(f"batch {n[0]}", n[1], n[2]) for n in st["nodes"]]:
                 rd = list(csv.DictReader(io.StringIO(text)))
-                if any(None in r or None in r.values() for r in rd) or len(rd) != len(rows) or not text.endswith("\n"):
+                if any(None in r or None in r.values() for r in rd) or len(rd) != len(rows) or not (text.endswith("\n") or text == ""):
                     out.append(V("row.truncated", f"{where}: {label} file has a short/long/unterminated row: {text!r}"))
             in_files = Counter(norm(r) for r in st["consRows"])
             for n in st["nodes"]:
@@ -702,33 +1032,68 @@ class ResultsSuite(Suite):
             if lost:
                 out.append(V("row.lost", f"{where}: rows written but in no file: {sorted(lost)}"))
             extra_rows = in_files - written
+            # rows of node files whose lock marker is on disk (the file being moved right now / by a dead process)
+            locked_by_batch = {n[0]: Counter(norm(r) for r in n[2]) for n in st["nodes"] if n[0] in st["nodeLocked"]}
+            # a failed os.remove / stale markers broken after a death between copy and removal: the rows that
+            # were in both files under that lock just before stay duplicated, legitimately
+            if prev is not None and (i in fired_at or (o["t"] == "breakLocks" and st["ok"])):
+                prev_locked, prev_extra = prev
+                left = Counter(prev_extra)
+                for b_, rows_b in prev_locked.items():
+                    if b_ not in st["nodeLocked"] and any(n[0] == b_ for n in st["nodes"]):
+                        legit = rows_b & left
+                        dup_allowed += legit
+                        left -= legit
+            if i in fired_at or i in killed_at:
+                # the round of this process returns nothing: what is in the consolidated file and unreported
+                # now stays unreported (no other round is in progress: it held the consolidated lock)
+                rets_now = Counter()
+                for p_, rows in st["returned"]:
+                    if rows != "raised":
+                        rets_now.update(norm(r) for r in rows)
+                unreported_ok |= (Counter(norm(r) for r in st["consRows"]) - canceled) - rets_now
             unknown = [r for r in extra_rows if r not in written]
             if unknown:
                 out.append(V("row.altered", f"{where}: rows in the files that nobody wrote (fields differ): {unknown}"))
             elif extra_rows:
                 # duplicates are legitimate only for the file being moved right now (its lock is held)
                 locked_rows = Counter()
-                for n in st["nodes"]:
-                    if n[0] in st["nodeLocked"]:
-                        locked_rows.update(norm(r) for r in n[2])
-                if extra_rows - locked_rows:
-                    out.append(V("row.duplicated", f"{where}: rows present more often than written: {sorted(extra_rows - locked_rows)}"))
+                for rows_b in locked_by_batch.values():
+                    locked_rows.update(rows_b)
+                if extra_rows - locked_rows - dup_allowed:
+                    out.append(V("row.duplicated", f"{where}: rows present more often than written: {sorted(extra_rows - locked_rows - dup_allowed)}"))
+            prev = (locked_by_batch, extra_rows)
             # reporting
+            excused_raises += sum(1 for x in fired_at.get(i, []) if x[2] == "fail")
             rets = Counter()
-            for p, rows in st["returned"]:
+            raised = 0
+            for p_, rows in st["returned"]:
                 if rows == "raised":
-                    out.append(V("collector.raised", f"{where}: process_results() of round {p} raised: {info['exceptions'][:1]}"))
+                    raised += 1
                 else:
                     rets.update(norm(r) for r in rows)
+            if raised > excused_raises:
+                out.append(V("collector.raised", f"{where}: process_results() raised without an injected failure: {info['exceptions'][:2]}"))
             if rets - appended:
                 out.append(V("returned.twice", f"{where}: rows reported as newly completed more often than written by runners: {sorted(rets - appended)}"))
-            if not st["consLocked"] and not (lost or extra_rows):
-                moved = Counter(norm(r) for r in st["consRows"]) - canceled
-                if moved != rets:
+            moved = Counter(norm(r) for r in st["consRows"]) - canceled
+            if rets - moved and not lost:
+                out.append(V("returned.missing", f"{where}: rows reported by a finished collection that are not in the consolidated file: {sorted(rets - moved)}"))
+            if not st["consLocked"] and not lost:
+                if (moved - rets) - unreported_ok - dup_allowed:
                     out.append(V("returned.missing", f"{where}: rows in the consolidated file never reported by a finished collection: "
-                                                     f"{sorted(moved - rets)}; reported but not there: {sorted(rets - moved)}"))
-        # end state, after the harness' own final collection
+                                                     f"{sorted((moved - rets) - unreported_ok - dup_allowed)}"))
+        # end state, after the harness' own final collection (it first removes the stale markers of dead
+        # processes: what was in both files under such a marker at the end of the trace stays duplicated)
         final = info["final"]
+        if prev is not None and final.get("stale_broken"):
+            prev_locked, prev_extra = prev
+            left = Counter(prev_extra)
+            for b_, rows_b in prev_locked.items():
+                if f"results_batch_{b_}.csv.lock" in final["stale_broken"]:
+                    legit = rows_b & left
+                    dup_allowed += legit
+                    left -= legit
         for e in final["errors"]:
             out.append(V("final.error", e))
         for e in info["exceptions"]:
@@ -736,15 +1101,15 @@ class ResultsSuite(Suite):
                 out.append(V("writer.raised", e))
         if final.get("list_results") is not None:
             listed = Counter(norm(r) for r in final["list_results"])
-            if listed != appended + canceled:
+            if (appended + canceled) - listed or (listed - (appended + canceled)) - dup_allowed:
                 out.append(V("final.mismatch", f"list_results at the end: missing {sorted((appended + canceled) - listed)}, "
-                                               f"surplus {sorted(listed - (appended + canceled))}"))
+                                               f"surplus {sorted((listed - (appended + canceled)) - dup_allowed)}"))
         rets = Counter()
         for p, rows in final["returned"]:
             if rows != "raised":
                 rets.update(norm(r) for r in rows)
-        if rets != appended:
-            out.append(V("final.reported", f"rows returned by all process_results() calls: missing {sorted(appended - rets)}, "
+        if (appended - rets) - unreported_ok or rets - appended:
+            out.append(V("final.reported", f"rows returned by all process_results() calls: missing {sorted((appended - rets) - unreported_ok)}, "
                                            f"surplus {sorted(rets - appended)}"))
         if [f for f in final["leftover_files"] if f.endswith(".csv")]:
             out.append(V("final.leftover", f"node files left after a complete collection: {final['leftover_files']}"))
@@ -798,7 +1163,68 @@ class ResultsSuite(Suite):
             prev_nodes = nodes
         ncoll = len({o["p"] for o in ops if "p" in o})
         t.append(f"run.collectors={ncoll}")
+        t += self._fault_tags(case, result)
         return sorted(set(t))
+
+    _PHASE = {"acquire": "holdsConsLock", "open:a": "fileLockedRowsRead", "open:w": "fileLockedRowsRead",
+              "remove": "copiedNotRemoved", "release": "beforeConsRelease", "idle": "idle"}
+
+    def _fault_tags(self, case, result):
+        """situations with injected failures / kills: which failure fired, the phase a process died in,
+        stale markers broken or left, and what the continuation did with the rows"""
+        ops = case["ops"]
+        ex = self.extra.get(self._key(case))
+        if ex is None or not any(o["t"] in ("fault", "kill", "breakLocks") for o in ops):
+            return []
+        info = ex["info"]
+        t = ["run.faulty"]
+        events = []
+        for i, p, what, kind in info["fired"]:
+            t.append(f"fault.{what}.fired" if kind == "fail" else f"kill.at={what}")
+            events.append(i)
+            if what == "write" and i > 0 and result[i - 1]["cons"] is None and result[i]["cons"] == "":
+                t.append("fault.write.createdEmptyFile")
+            if what == "opened" and i > 0 and result[i - 1]["cons"] is None and result[i]["cons"] == "":
+                t.append("kill.at=opened.createdEmptyFile")
+        for i, p, phase in info["killed"]:
+            if phase != "in-step":
+                t.append("kill.at=" + self._PHASE.get(phase, phase))
+                events.append(i)
+        armed = sum(1 for o in ops if o["t"] == "fault" or (o["t"] == "kill" and o.get("at")))
+        if armed > len(info["fired"]):
+            t.append("fault.armedNotFired")
+        for i, gone in info["broken"]:
+            t.append("breakLocks.effective" if gone else "breakLocks.nothingStale")
+        if info["killed"] and not any(gone for _, gone in info["broken"]):
+            t.append("kill.markersNeverBroken")
+        for i in events:
+            st = result[i]
+            if isinstance(st["consRows"], list):
+                rets = Counter()
+                for _, rows in st["returned"]:
+                    if rows != "raised":
+                        rets.update(tuple(r[:3]) for r in rows)
+                moved = Counter(tuple(r[:3]) for r in st["consRows"])
+                canc = Counter(tuple(o["row"][:3]) for o, s2 in zip(ops[:i + 1], result[:i + 1]) if o["t"] == "cancel" and s2["ok"])
+                if (moved - canc) - rets:
+                    t.append("abort.movedRowsUnreported")
+            # the continuation: a later round finished and returned rows
+            n_before = len(st["returned"])
+            later = [r for r in result[-1]["returned"][n_before:] if r[1] != "raised" and r[1]]
+            if later:
+                t.append("continuation.laterRoundCollects")
+            if any(o["t"] == "append" and s2["ok"] for o, s2 in zip(ops[i + 1:], result[i + 1:])):
+                t.append("continuation.appendsAfterFault")
+        last = result[-1] if result else None
+        if last and isinstance(last["consRows"], list):
+            c = Counter(tuple(r) for r in last["consRows"])
+            w = Counter(tuple(o["row"]) for o, s2 in zip(ops, result) if o["t"] in ("append", "cancel") and s2["ok"])
+            # (times are compared as text here: only a hint for the evidence)
+            if any(v > w.get(k, v) for k, v in c.items()):
+                t.append("continuation.rowsCollectedAgain")
+        if any(o["t"] in ("lock", "move", "end") and not s2["ok"] and o["p"] in s2.get("dead", []) for o, s2 in zip(ops, result)):
+            t.append("dead.processDoesNothing")
+        return t
 
     # ------------------------------------------------------------------ shrinking
     @staticmethod
